@@ -44,6 +44,8 @@ def dispatch_cfg(path, senders, per, variant, mode, nested, fails, yields, trace
         else:
             for inv in list(INV.values())[1:]:
                 f.write(f"INVARIANT {inv}\n")
+            if mode == "threads" and variant in ("both", "pinned"):
+                f.write("PROPERTY RefinesCore\n")     # Dispatch refines the counter abstraction proved by Apalache
         f.write("CHECK_DEADLOCK FALSE\n")
 
 
@@ -81,6 +83,42 @@ def mc(chk, senders, per, variant, mode, nested, fails, yields, expect_violation
         return out
     finally:
         shutil.rmtree(wd, ignore_errors=True)
+
+
+def apalache(chk, quick):
+    """Unbounded part: Apalache checks that Inv (TypeOK, LockOwner, Covered) of DispatchCore.tla - the counter abstraction that
+    Dispatch.tla refines (TLC: RefinesCore) - is an inductive invariant for 3 senders and ANY number of events, and that it
+    implies NothingStranded.  Obligations: Init => Inv; Inv /\ Next => Inv'; Inv => NothingStranded."""
+    import subprocess
+    import time
+    obligations = [("Init => Inv", "MC_Core_TRUE.tla", ["--init=Init", "--inv=Inv", "--length=0"], True),
+                   ("Inv /\\ Next => Inv'", "MC_Core_TRUE.tla", ["--init=IndInit", "--inv=Inv", "--length=1"], True),
+                   ("Inv => NothingStranded", "MC_Core_TRUE.tla", ["--init=IndInit", "--inv=NothingStranded", "--length=0"], True)]
+    if not quick:
+        obligations.append(("pinned protocol: Inv is NOT inductive", "MC_Core_FALSE.tla",
+                            ["--init=IndInit", "--inv=Inv", "--length=1"], False))
+    done = []
+    for name, module, args, expect_ok in obligations:
+        wd = tlc.workdir("apa")
+        t0 = time.time()
+        try:
+            p = subprocess.run(["apalache-mc", "check", "--cinit=ConstInit", *args, f"--out-dir={wd}", module],
+                               cwd=tlc.SPEC_DIR, capture_output=True, text=True, timeout=900)
+        except subprocess.TimeoutExpired:
+            done.append({"obligation": name, "result": "timeout"})
+            shutil.rmtree(wd, ignore_errors=True)
+            continue
+        shutil.rmtree(wd, ignore_errors=True)
+        ok = "EXITCODE: OK" in p.stdout
+        err = "EXITCODE: ERROR (12)" in p.stdout
+        if not ok and not err:
+            raise tlc.MachineryError(f"apalache failed on {name}: {p.stdout[-600:]}")
+        done.append({"obligation": name, "result": "holds" if ok else "counterexample", "wall_s": round(time.time() - t0, 1)})
+        if ok != expect_ok:
+            chk.report({"kind": "apalache_obligation", "obligation": name},
+                       f"Apalache: obligation `{name}` " + ("has a counterexample" if expect_ok else "unexpectedly holds"),
+                       {"apalache_tail": p.stdout[-3000:]})
+    chk.coverage["apalache_obligations"] = done
 
 
 # ---- real executions ------------------------------------------------------------------------
@@ -266,6 +304,7 @@ def run(pid, tier, seed, replay):
     if not quick:
         mc(chk, 3, 2, "both", "threads", 1, 1, 0, timeout=3000)
         mc(chk, 4, 1, "both", "asyncio", 1, 1, 3, timeout=3000)
+    apalache(chk, quick)
     # the rejected designs stay documented by their counterexamples
     mc(chk, 2, 1, "pinned", "threads", 0, 0, 0, expect_violation=True)
     mc(chk, 2, 1, "normal", "threads", 0, 1, 0, expect_violation=True)
